@@ -209,3 +209,327 @@ Proof.
   - destruct (in_mempool sc t p) as [inm t1]. destruct inm; cbn [bind]; [discriminate|].
     destruct (send_transaction sc t1 p) as [s t2]. cbn [bind]. discriminate.
 Qed.
+
+(* ------------------------------------------------------------------------------------------ *)
+(* 3. Watcher, block path: handle_breaches *)
+
+Lemma find_app_NoDup apps a : NoDup (map app_uuid apps) -> In a apps -> find_app apps (app_uuid a) = Some a.
+Proof.
+  unfold find_app. induction apps as [|x apps IH]; cbn [map In find]; intros Hn Hi; [contradiction|].
+  apply NoDup_cons_iff in Hn. destruct Hn as [Hx Hn].
+  destruct (uuid_eqb (app_uuid x) (app_uuid a)) eqn:E.
+  - destruct Hi as [->|Hi]; [reflexivity|]. apply uuid_eqb_eq in E. exfalso. apply Hx. rewrite E. apply in_map. exact Hi.
+  - destruct Hi as [->|Hi]; [rewrite uuid_eqb_refl in E; discriminate|]. apply IH; assumption.
+Qed.
+
+Lemma app_uuid_inj apps a a' :
+  NoDup (map app_uuid apps) -> In a apps -> In a' apps -> app_uuid a = app_uuid a' -> a = a'.
+Proof.
+  intros Hn Ha Ha' He. pose proof (find_app_NoDup apps a Hn Ha) as H1.
+  pose proof (find_app_NoDup apps a' Hn Ha') as H2. rewrite He in H1. congruence.
+Qed.
+
+Lemma find_trk_NoDup trks k : NoDup (map trk_uuid trks) -> In k trks -> find_trk trks (trk_uuid k) = Some k.
+Proof.
+  unfold find_trk. induction trks as [|x trks IH]; cbn [map In find]; intros Hn Hi; [contradiction|].
+  apply NoDup_cons_iff in Hn. destruct Hn as [Hx Hn].
+  destruct (uuid_eqb (trk_uuid x) (trk_uuid k)) eqn:E.
+  - destruct Hi as [->|Hi]; [reflexivity|]. apply uuid_eqb_eq in E. exfalso. apply Hx. rewrite E. apply in_map. exact Hi.
+  - destruct Hi as [->|Hi]; [rewrite uuid_eqb_refl in E; discriminate|]. apply IH; assumption.
+Qed.
+
+Lemma find_trk_None_iff trks u : find_trk trks u = None <-> ~ In u (map trk_uuid trks).
+Proof.
+  split; [apply find_trk_None|]. intros Hn. destruct (find_trk trks u) as [k|] eqn:E; [|reflexivity].
+  apply find_trk_Some in E. destruct E as [Hi He]. exfalso. apply Hn. rewrite <- He. apply in_map. exact Hi.
+Qed.
+
+Lemma find_app_None_iff apps u : find_app apps u = None <-> ~ In u (map app_uuid apps).
+Proof.
+  split; [apply find_app_None|]. intros Hn. destruct (find_app apps u) as [k|] eqn:E; [|reflexivity].
+  apply find_app_Some in E. destruct E as [Hi He]. exfalso. apply Hn. rewrite <- He. apply in_map. exact Hi.
+Qed.
+
+Lemma accepted_not_rejected s : status_accepted s = true -> status_rejected s = false.
+Proof. destruct s; cbn; congruence. Qed.
+
+(* the status depends on the responder's index, the carrier's height and memo only *)
+Lemma breach_status_core sc t t' p :
+  r_index t = r_index t' -> car_height t = car_height t' -> car_memo t = car_memo t' ->
+  breach_status sc t p = breach_status sc t' p.
+Proof. unfold breach_status, send_status. intros -> -> ->. reflexivity. Qed.
+
+(* the log and the tracker table only grow while breaches are handed to the responder *)
+Definition grows (t t' : tower) : Prop :=
+  (exists new, db_trks t' = db_trks t ++ new) /\ (exists evs, rpc_log t' = evs ++ rpc_log t).
+
+Lemma grows_refl t : grows t t.
+Proof. split; exists []; [rewrite app_nil_r|]; reflexivity. Qed.
+Lemma grows_trans a b c : grows a b -> grows b c -> grows a c.
+Proof.
+  intros [[n1 H1] [e1 G1]] [[n2 H2] [e2 G2]]. split.
+  - exists (n1 ++ n2). rewrite H2, H1, app_assoc. reflexivity.
+  - exists (e2 ++ e1). rewrite G2, G1, app_assoc. reflexivity.
+Qed.
+Lemma grows_trk a b k : grows a b -> In k (db_trks a) -> In k (db_trks b).
+Proof. intros [[n H] _] Hi. rewrite H. apply in_or_app. left. exact Hi. Qed.
+Lemma grows_log a b e : grows a b -> In e (rpc_log a) -> In e (rpc_log b).
+Proof. intros [_ [n H]] Hi. rewrite H. apply in_or_app. right. exact Hi. Qed.
+
+(* the four ways a penalty is dealt with, as handle_breach tries them *)
+Lemma breach_events_evidence sc t p :
+  ti_get (r_index t) p <> None \/
+  (In (ev_getraw p true) (breach_events sc t p) /\ says_in_mempool sc p = true) \/
+  (exists r, In (ev_send p r) (breach_events sc t p)) \/
+  aget (car_memo t) p <> None.
+Proof.
+  unfold breach_events. destruct (ti_get (r_index t) p); [left; discriminate|right].
+  destruct (says_in_mempool sc p); [left; split; [left|]; reflexivity|right].
+  destruct (aget (car_memo t) p); [right; discriminate|left].
+  eexists. left. reflexivity.
+Qed.
+
+Lemma breach_memo_cases sc t p :
+  breach_memo sc t p = car_memo t \/
+  (aget (car_memo t) p = None /\
+   breach_memo sc t p = (p, send_status t (snd (script_get sc p))) :: car_memo t /\
+   In (ev_send p (send_status t (snd (script_get sc p)))) (breach_events sc t p)).
+Proof.
+  unfold breach_memo, breach_events. destruct (ti_get (r_index t) p); [left; reflexivity|].
+  destruct (says_in_mempool sc p); [left; reflexivity|].
+  destruct (aget (car_memo t) p); [left; reflexivity|right].
+  repeat split. left. reflexivity.
+Qed.
+
+Section BreachPhase.
+  (* t0: the state in which the watcher starts handing breaches over (or any earlier state of
+     the same block period with the same apps/index/carrier height: what matters is below) *)
+  Context (sc : script) (t0 : tower).
+  Context (Hnodup : NoDup (map app_uuid (db_apps t0))).
+
+  (* tracker k was created in this phase from row a *)
+  Definition made_from (k : trk) (a : app) : Prop :=
+    trk_uuid k = app_uuid a /\ t_dispute k = a_loc a /\
+    decrypt (a_blob a) (a_loc a) = Some (t_penalty k) /\
+    status_of_row k = breach_status sc t0 (t_penalty k) /\
+    status_accepted (breach_status sc t0 (t_penalty k)) = true.
+
+  Record Ext (t : tower) : Prop := {
+    ext_core : same_core t0 t;
+    ext_log : exists evs, rpc_log t = evs ++ rpc_log t0;
+    ext_memo_old : forall p r, aget (car_memo t0) p = Some r -> aget (car_memo t) p = Some r;
+    ext_memo_new : forall p r, aget (car_memo t0) p = None -> aget (car_memo t) p = Some r ->
+                               r = send_status t0 (snd (script_get sc p)) /\ In (ev_send p r) (rpc_log t);
+    ext_trks : exists new, db_trks t = db_trks t0 ++ new /\
+                           forall k, In k new -> exists a, In a (db_apps t0) /\ made_from k a
+  }.
+
+  Lemma ext_refl : Ext t0.
+  Proof.
+    constructor.
+    - apply same_core_refl.
+    - exists []. reflexivity.
+    - auto.
+    - intros p r H1 H2. congruence.
+    - exists []. split; [rewrite app_nil_r; reflexivity|intros k []].
+  Qed.
+
+  (* verdict by txid: whenever a penalty is handled during the phase, the status is the one
+     determined by the state at the start of the phase (the memo pins the node's first answer) *)
+  Lemma ext_status t p : Ext t -> breach_status sc t p = breach_status sc t0 p.
+  Proof.
+    intros E. destruct (ext_core t E) as [_ [_ [_ [_ [_ [_ [_ [Hi [Hh _]]]]]]]]].
+    unfold breach_status. rewrite <- Hi, <- Hh.
+    destruct (ti_get (r_index t0) p); [reflexivity|].
+    destruct (says_in_mempool sc p); [reflexivity|].
+    destruct (aget (car_memo t0) p) as [r|] eqn:E0.
+    - rewrite (ext_memo_old t E p r E0). reflexivity.
+    - destruct (aget (car_memo t) p) as [r|] eqn:E1.
+      + apply (ext_memo_new t E p r E0 E1).
+      + apply send_status_core. symmetry. exact Hh.
+  Qed.
+
+  (* what has been done about penalty p on behalf of row uuid, seen from a later state t *)
+  Definition answered (t : tower) (uuid : N * N) (p : N) : Prop :=
+    (ti_get (r_index t0) p <> None \/
+     (In (ev_getraw p true) (rpc_log t) /\ says_in_mempool sc p = true) \/
+     (exists r, In (ev_send p r) (rpc_log t)) \/
+     aget (car_memo t0) p <> None) /\
+    (status_accepted (breach_status sc t0 p) = true -> exists k, In k (db_trks t) /\ trk_uuid k = uuid).
+
+  Lemma answered_mono t t' uuid p : grows t t' -> answered t uuid p -> answered t' uuid p.
+  Proof.
+    intros Hg [He Hk]. split.
+    - destruct He as [He|[[He Hs]|[[r He]|He]]]; [left; exact He| | |right; right; right; exact He].
+      + right. left. split; [eapply grows_log; eassumption|exact Hs].
+      + right. right. left. exists r. eapply grows_log; eassumption.
+    - intros Ha. destruct (Hk Ha) as [k [Hi Hu]]. exists k. split; [eapply grows_trk; eassumption|exact Hu].
+  Qed.
+
+  Lemma ext_handle t uuid a p s t' :
+    Ext t -> find_app (db_apps t0) uuid = Some a -> decrypt (a_blob a) (a_loc a) = Some p ->
+    r_handle_breach sc t uuid (a_loc a) p = Ok s t' ->
+    Ext t' /\ grows t t' /\ s = breach_status sc t0 p /\ answered t' uuid p.
+  Proof.
+    intros E Hf Hd Hr. apply handle_breach_spec in Hr.
+    destruct Hr as [Hs [Hc [Hl [Hm Hk]]]]. rewrite (ext_status t p E) in Hs.
+    pose proof (ext_core t E) as Hc0.
+    assert (Hh : car_height t0 = car_height t) by apply Hc0.
+    assert (Hi : r_index t0 = r_index t) by apply Hc0.
+    assert (Happs : db_apps t0 = db_apps t) by apply Hc0.
+    destruct (find_app_Some _ _ _ Hf) as [Hin Hu].
+    assert (Hg : grows t t').
+    { split; [|exists (breach_events sc t p); exact Hl].
+      rewrite Hk. unfold breach_trks. destruct (status_accepted s); [|exists []; rewrite app_nil_r; reflexivity].
+      destruct (find_trk (db_trks t) uuid), (find_app (db_apps t) uuid);
+        first [exists []; rewrite app_nil_r; reflexivity|eexists; reflexivity]. }
+    assert (Hans : answered t' uuid p).
+    { split.
+      - rewrite Hi. destruct (breach_events_evidence sc t p) as [He|[[He Hsm]|[[r He]|He]]].
+        + left. exact He.
+        + right. left. split; [rewrite Hl; apply in_or_app; left; exact He|exact Hsm].
+        + right. right. left. exists r. rewrite Hl. apply in_or_app. left. exact He.
+        + destruct (aget (car_memo t) p) as [r|] eqn:E1; [|congruence].
+          destruct (aget (car_memo t0) p) as [r0|] eqn:E0; [right; right; right; discriminate|].
+          right. right. left. exists r. rewrite Hl. apply in_or_app. right.
+          apply (ext_memo_new t E p r E0 E1).
+      - rewrite <- Hs. intros Ha. rewrite Hk. unfold breach_trks. rewrite Ha, <- Happs, Hf.
+        destruct (find_trk (db_trks t) uuid) as [k|] eqn:Ek.
+        + apply find_trk_Some in Ek. exists k. exact Ek.
+        + exists (new_trk uuid (a_loc a) p s). split; [apply in_or_app; right; left; reflexivity|].
+          destruct uuid; reflexivity. }
+    split; [|split; [exact Hg|split; [exact Hs|exact Hans]]].
+    constructor.
+    - eapply same_core_trans; eassumption.
+    - destruct (ext_log t E) as [evs He]. exists (breach_events sc t p ++ evs). rewrite Hl, He, app_assoc. reflexivity.
+    - intros q r Hq. rewrite Hm. pose proof (ext_memo_old t E q r Hq) as Hq'.
+      destruct (breach_memo_cases sc t p) as [->|[Hn [-> _]]]; [exact Hq'|].
+      cbn [aget]. destruct (N.eqb q p) eqn:Eqp; [|exact Hq'].
+      apply N.eqb_eq in Eqp. subst q. congruence.
+    - intros q r Hq. rewrite Hm.
+      destruct (breach_memo_cases sc t p) as [->|[Hn [-> Hev]]].
+      + intros Hq'. destruct (ext_memo_new t E q r Hq Hq') as [H1 H2]. split; [exact H1|].
+        eapply grows_log; eassumption.
+      + cbn [aget]. destruct (N.eqb q p) eqn:Eqp.
+        * apply N.eqb_eq in Eqp. subst q. intros Hr. injection Hr as <-.
+          split; [apply send_status_core; symmetry; exact Hh|].
+          rewrite Hl. apply in_or_app. left. exact Hev.
+        * intros Hq'. destruct (ext_memo_new t E q r Hq Hq') as [H1 H2]. split; [exact H1|].
+          eapply grows_log; eassumption.
+    - destruct (ext_trks t E) as [new [Hn Hall]]. rewrite Hk. unfold breach_trks.
+      destruct (status_accepted s) eqn:Ha; [|exists new; split; assumption].
+      destruct (find_trk (db_trks t) uuid) eqn:Ek; [exists new; split; assumption|].
+      rewrite <- Happs, Hf. exists (new ++ [new_trk uuid (a_loc a) p s]). split; [rewrite Hn, app_assoc; reflexivity|].
+      intros k Hik. apply in_app_or in Hik. destruct Hik as [Hik|[<-|[]]]; [apply Hall; exact Hik|].
+      exists a. split; [exact Hin|]. unfold made_from.
+      cbn [new_trk t_penalty t_dispute]. rewrite <- Hs.
+      repeat split; [rewrite Hu; destruct uuid; reflexivity|exact Hd|apply status_of_new_trk; exact Ha|exact Ha].
+  Qed.
+
+  (* the rows with locator d, one after the other *)
+  Definition row_outcome (t' : tower) (inv' : list (N * N)) (a : app) : Prop :=
+    match decrypt (a_blob a) (a_loc a) with
+    | None => In (app_uuid a) inv'
+    | Some p => answered t' (app_uuid a) p /\
+                (status_rejected (breach_status sc t0 p) = true -> In (app_uuid a) inv')
+    end.
+
+  (* why a uuid is in the list of appointments to delete *)
+  Definition row_invalid (a : app) : Prop :=
+    match decrypt (a_blob a) (a_loc a) with
+    | None => True
+    | Some p => status_rejected (breach_status sc t0 p) = true
+    end.
+
+  Lemma row_outcome_mono t t' inv inv' a :
+    grows t t' -> incl inv inv' -> row_outcome t inv a -> row_outcome t' inv' a.
+  Proof.
+    unfold row_outcome. intros Hg Hi. destruct (decrypt (a_blob a) (a_loc a)) as [p|]; [|apply Hi].
+    intros [H1 H2]. split; [eapply answered_mono; eassumption|intros H; apply Hi, H2, H].
+  Qed.
+
+  Lemma breach_uuid_loop_spec d us : forall t inv inv' t',
+    Ext t -> (forall u, In u us -> fst u = d) ->
+    breach_uuid_loop sc d us t inv = Ok inv' t' ->
+    Ext t' /\ grows t t' /\ incl inv inv' /\
+    (forall u, In u us -> exists a, find_app (db_apps t0) u = Some a /\ row_outcome t' inv' a) /\
+    (forall u, In u inv' -> In u inv \/ (In u us /\ exists a, find_app (db_apps t0) u = Some a /\ row_invalid a)).
+  Proof.
+    induction us as [|uuid us IH]; intros t inv inv' t' E Hd; cbn [breach_uuid_loop].
+    - intros H. injection H as <- <-. split; [exact E|]. split; [apply grows_refl|]. split; [apply incl_refl|].
+      split; [intros u []|intros u Hu; left; exact Hu].
+    - assert (Happs : db_apps t0 = db_apps t) by apply (ext_core t E).
+      rewrite <- Happs.
+      destruct (find_app (db_apps t0) uuid) as [a|] eqn:Ef; [|discriminate].
+      destruct (find_app_Some _ _ _ Ef) as [Hin Hu].
+      assert (Hloc : d = a_loc a).
+      { rewrite <- (Hd uuid (or_introl eq_refl)), <- Hu. reflexivity. }
+      assert (Hd' : forall u, In u us -> fst u = d) by (intros u Hi; apply Hd; right; exact Hi).
+      rewrite Hloc.
+      destruct (decrypt (a_blob a) (a_loc a)) as [p|] eqn:Edec.
+      + destruct (r_handle_breach sc t uuid (a_loc a) p) as [s t1|] eqn:Er; cbn [bind]; [|discriminate].
+        destruct (ext_handle t uuid a p s t1 E Ef Edec Er) as [E1 [Hg1 [Hs Hans]]].
+        intros Hloop. rewrite <- Hloc in Hloop.
+        destruct (IH t1 _ inv' t' E1 Hd' Hloop) as [E' [Hg' [Hincl [Hall Hinv]]]].
+        split; [exact E'|]. split; [eapply grows_trans; eassumption|].
+        assert (Hincl0 : incl inv inv').
+        { intros x Hx. apply Hincl. destruct (status_rejected s); [apply in_or_app; left|]; exact Hx. }
+        split; [exact Hincl0|]. split.
+        * intros u [<-|Hu']; [|apply Hall; exact Hu'].
+          exists a. split; [exact Ef|]. unfold row_outcome. rewrite Edec, Hu. split.
+          -- eapply answered_mono; eassumption.
+          -- rewrite <- Hs. intros Hrej. apply Hincl. rewrite Hrej. apply in_or_app. right. left. reflexivity.
+        * intros u Hu'. destruct (Hinv u Hu') as [H1|[H1 H2]]; [|right; split; [right; exact H1|exact H2]].
+          destruct (status_rejected s) eqn:Hrej; [|left; exact H1].
+          apply in_app_or in H1. destruct H1 as [H1|[<-|[]]]; [left; exact H1|].
+          right. split; [left; reflexivity|]. exists a. split; [exact Ef|].
+          unfold row_invalid. rewrite Edec, <- Hs. exact Hrej.
+      + intros Hloop. rewrite <- Hloc in Hloop.
+        destruct (IH t _ inv' t' E Hd' Hloop) as [E' [Hg' [Hincl [Hall Hinv]]]].
+        split; [exact E'|]. split; [exact Hg'|].
+        split; [intros x Hx; apply Hincl, in_or_app; left; exact Hx|]. split.
+        * intros u [<-|Hu']; [|apply Hall; exact Hu'].
+          exists a. split; [exact Ef|]. unfold row_outcome. rewrite Edec, Hu.
+          apply Hincl, in_or_app. right. left. reflexivity.
+        * intros u Hu'. destruct (Hinv u Hu') as [H1|[H1 H2]]; [|right; split; [right; exact H1|exact H2]].
+          apply in_app_or in H1. destruct H1 as [H1|[<-|[]]]; [left; exact H1|].
+          right. split; [left; reflexivity|]. exists a. split; [exact Ef|].
+          unfold row_invalid. rewrite Edec. exact I.
+  Qed.
+
+  (* every breached locator of the block *)
+  Lemma breach_loop_spec ds : forall t inv inv' t',
+    Ext t -> breach_loop sc ds t inv = Ok inv' t' ->
+    Ext t' /\ grows t t' /\ incl inv inv' /\
+    (forall a, In a (db_apps t0) -> In (a_loc a) ds -> row_outcome t' inv' a) /\
+    (forall u, In u inv' -> In u inv \/
+               exists a, In a (db_apps t0) /\ app_uuid a = u /\ In (a_loc a) ds /\ row_invalid a).
+  Proof.
+    induction ds as [|d ds IH]; intros t inv inv' t' E; cbn [breach_loop].
+    - intros H. injection H as <- <-. split; [exact E|]. split; [apply grows_refl|]. split; [apply incl_refl|].
+      split; [intros a _ []|intros u Hu; left; exact Hu].
+    - assert (Happs : db_apps t0 = db_apps t) by apply (ext_core t E).
+      rewrite <- Happs.
+      set (us := map app_uuid (filter (fun a => N.eqb (a_loc a) d) (db_apps t0))).
+      assert (Hus : forall u, In u us -> fst u = d).
+      { intros u Hu. apply in_map_iff in Hu. destruct Hu as [a [<- Ha]]. apply filter_In in Ha.
+        destruct Ha as [_ Ha]. apply N.eqb_eq in Ha. exact Ha. }
+      destruct (breach_uuid_loop sc d us t inv) as [inv1 t1|] eqn:El; cbn [bind]; [|discriminate].
+      destruct (breach_uuid_loop_spec d us t inv inv1 t1 E Hus El) as [E1 [Hg1 [Hincl1 [Hall1 Hinv1]]]].
+      intros Hloop. destruct (IH t1 inv1 inv' t' E1 Hloop) as [E' [Hg' [Hincl' [Hall' Hinv']]]].
+      split; [exact E'|]. split; [eapply grows_trans; eassumption|].
+      split; [intros x Hx; apply Hincl', Hincl1, Hx|]. split.
+      + intros a Ha [Hd|Hd]; [|apply Hall'; assumption].
+        assert (Hu : In (app_uuid a) us).
+        { apply in_map. apply filter_In. split; [exact Ha|]. apply N.eqb_eq. symmetry. exact Hd. }
+        destruct (Hall1 _ Hu) as [a' [Hf Hout]].
+        rewrite (find_app_NoDup _ a Hnodup Ha) in Hf. injection Hf as <-.
+        eapply row_outcome_mono; eassumption.
+      + intros u Hu. destruct (Hinv' u Hu) as [H1|[a [Ha [Hua [Hl Hri]]]]].
+        * destruct (Hinv1 u H1) as [H2|[H2 [a [Hf Hri]]]]; [left; exact H2|right].
+          destruct (find_app_Some _ _ _ Hf) as [Hin Hua]. exists a.
+          split; [exact Hin|]. split; [exact Hua|]. split; [|exact Hri].
+          left. rewrite <- (Hus u H2), <- Hua. reflexivity.
+        * right. exists a. split; [exact Ha|]. split; [exact Hua|]. split; [right; exact Hl|exact Hri].
+  Qed.
+End BreachPhase.
